@@ -215,16 +215,21 @@ def child_main(spec_path: str, out_path: str) -> None:
         items = sorted((f"{k.__module__}.{k.__qualname__}", getattr(v, "__qualname__", repr(type(v)))) for k, v in d.items())
         return hashlib.sha1(repr(items).encode()).hexdigest()[:16] + f":{len(items)}"
 
+    REC_LOCK = threading.Lock()  # makes "dict operation + its log entry" one atomic step (the log is the linearisation)
+
     class RecDict(dict):
         def get(self, k, default=None):
-            v = dict.get(self, k, default)
-            rec("chit" if v is not None else "cmiss", cls_name(k))
+            with REC_LOCK:
+                v = dict.get(self, k, default)
+                rec("chit" if v is not None else "cmiss", cls_name(k))
             return v
 
         def __setitem__(self, k, v):
-            rec("cset", cls_name(k))
-            FILLS.setdefault(cls_name(k), []).append(table_fp(v))
-            dict.__setitem__(self, k, v)
+            fp = table_fp(v)
+            with REC_LOCK:
+                rec("cset", cls_name(k))
+                FILLS.setdefault(cls_name(k), []).append(fp)
+                dict.__setitem__(self, k, v)
 
     if isinstance(getattr(G, "_DISPATCH_CACHE", None), dict):
         G._DISPATCH_CACHE = RecDict(G._DISPATCH_CACHE)
@@ -288,12 +293,14 @@ def child_main(spec_path: str, out_path: str) -> None:
         for j, op in enumerate(spec["threads"][i]):
             CUR_OP[i] = j
             before = sum(EXEC_COUNT.values())
+            rec("op", j)
             try:
                 r = run_op(op, local)
             except BaseException as e:  # noqa
                 tb = traceback.extract_tb(e.__traceback__)
                 where = [f"{os.path.basename(f.filename)}:{f.lineno}:{f.name}" for f in tb[-4:]]
                 r = "raise:" + type(e).__name__ + ":" + str(e)[:300] + "|" + ">".join(where)
+            rec("opend", j)
             results[i].append(r)
             op_execs[i].append(sum(EXEC_COUNT.values()) - before)
         CUR_OP[i] = None
@@ -303,7 +310,7 @@ def child_main(spec_path: str, out_path: str) -> None:
     t0 = time.time()
     for th in threads:
         th.start()
-    deadline = t0 + spec.get("timeout", 40)
+    deadline = t0 + spec.get("timeout", 15)
     for th in threads:
         th.join(max(0.0, deadline - time.time()))
     hang = [i for i, th in enumerate(threads) if th.is_alive()]
@@ -313,7 +320,7 @@ def child_main(spec_path: str, out_path: str) -> None:
         for i, th in enumerate(threads):
             if th.is_alive():
                 fr = frames.get(th.ident)
-                st = traceback.extract_stack(fr)[-6:] if fr else []
+                st = traceback.extract_stack(fr)[-14:] if fr else []
                 hang_info[str(i)] = {"op": CUR_OP.get(i), "stack": [f"{os.path.basename(f.filename)}:{f.lineno}:{f.name}" for f in st]}
     sys.setswitchinterval(0.005)
     out = {
@@ -422,15 +429,16 @@ def _scan(fn: ast.AST, lock_name: str) -> dict:
         for ch in ast.iter_child_nodes(node):
             if isinstance(ch, (ast.FunctionDef, ast.AsyncFunctionDef, ast.Lambda, ast.ClassDef)):
                 res["nested_defs"] += 1
-            ins = inside
-            if isinstance(ch, ast.With) and lock_name in _with_locks(ch):
-                # the context expressions themselves are evaluated outside
-                for b in ch.body:
-                    visit(b, True)
-                continue
-            visit(ch, ins)
+            visit(ch, inside)
 
     def visit(node, inside):
+        if isinstance(node, (ast.With, ast.AsyncWith)) and lock_name in _with_locks(node):
+            # the context expressions themselves are evaluated outside the lock, the body inside
+            for it in node.items:
+                visit(it, inside)
+            for b in node.body:
+                visit(b, True)
+            return
         if _is_import_call(node):
             res["imports"] += 1
             res["imports_in"] += 1 if inside else 0
@@ -564,7 +572,7 @@ class Runner:
         env["PYTHONHASHSEED"] = str(spec.get("hashseed", 0))
         try:
             p = subprocess.run([PYTHON, os.path.abspath(__file__), "child", base + ".spec.json", base + ".out.json"],
-                               capture_output=True, text=True, timeout=spec.get("timeout", 40) + 60, env=env)
+                               capture_output=True, text=True, timeout=spec.get("timeout", 15) + 60, env=env)
         except subprocess.TimeoutExpired:
             return {"spec": spec, "crash": "child process did not exit", "hang": list(range(len(spec["threads"]))), "hang_info": {},
                     "events": [], "results": [[] for _ in spec["threads"]], "exec_counts": {}, "fills": {}, "op_execs": []}
@@ -621,7 +629,7 @@ def gen_spec(chk: Check, kind: str, gen_unsafe: set) -> dict:
     n = rng.choice([2, 2, 3, 4, 4, 6, 8, 8, 12, 16])
     probe = rng.random() < 0.6
     spec: dict = {"mode": kind, "probe": probe, "switch": rng.choice([1e-6, 1e-6, 1e-6, 1e-5, 5e-5]),
-                  "hashseed": rng.randrange(1000), "timeout": 40}
+                  "hashseed": rng.randrange(1000), "timeout": 15}
     threads = []
     if kind == "T-dialects":
         hot = rng.sample(names, rng.choice([1, 1, 2, 3]))
@@ -661,21 +669,27 @@ def gen_spec(chk: Check, kind: str, gen_unsafe: set) -> dict:
         low = [by_attr[nm] for nm in names]
         hot = rng.sample(low, rng.choice([1, 1, 2]))
         k_ops = rng.randint(6, 16)
+        # `sqlglot.dialects.<Name>` accesses mixed with string look-ups: only in a minority of runs (that mix
+        # dead-locks on today's tree — known finding — and a hung run tells nothing else)
+        mix = rng.random() < 0.3
+        spec["mix_attr"] = mix
         for _ in range(n):
             prog = []
             for d in (hot if rng.random() < 0.7 else rng.sample(hot, len(hot))):
-                prog.append(rand_call(rng, d, low))
+                prog.append(rand_call(rng, d, low, mix))
             for _ in range(k_ops):
-                prog.append(rand_call(rng, rng.choice(low), low))
-            if probe and rng.random() < 0.5:
+                prog.append(rand_call(rng, rng.choice(low), low, mix))
+            if mix and probe and rng.random() < 0.5:
                 prog.insert(rng.randrange(len(prog) + 1), ["attr", "dialects", "VfProbe"])
             threads.append(prog)
     spec["threads"] = threads
     return spec
 
 
-def rand_call(rng, d, low):
+def rand_call(rng, d, low, mix=True):
     r = rng.random()
+    if not mix and 0.8 <= r < 0.9:
+        r = 0.5
     sql = rng.choice(SQLS)
     if r < 0.15:
         return ["tokenize", sql, d]
@@ -691,11 +705,32 @@ def rand_call(rng, d, low):
 
 
 # ------------------------------------------------------------------------------------------ baseline
+class _Abort(Exception):
+    """a sequential (one thread) process already violates the property; reported, nothing more to do"""
+
+
+def sequential_failure(chk: Check, out: dict, what: str) -> None:
+    if out.get("crash"):
+        raise HarnessError(f"C19 {what} process failed: {str(out.get('crash'))[:500]}")
+    info = out.get("hang_info", {})
+    sigs = hang_sigs(out)
+    prog = out["spec"]["threads"][0]
+    at = next((v.get("op") for v in info.values() if v.get("op") is not None), 0)
+    chk.report_violation("hang:" + "|".join(sigs), f"a single thread hangs by itself in call #{at} {prog[at] if at < len(prog) else '?'} "
+                         f"(self dead-lock), blocked at {sigs}",
+                         {"spec": {"mode": "alone", "probe": out["spec"].get("probe", False), "switch": 0.005, "timeout": 10,
+                                   "threads": [[prog[at]] if at < len(prog) else prog[:1]]},
+                          "observed": {"blocked": [v.get("stack", [])[-8:] for v in info.values()][:2]}},
+                         context={"mode": "sequential"})
+    raise _Abort()
+
+
 class Baseline:
     """sequential answers, computed in separate processes (one thread, nothing else running)"""
 
-    def __init__(self, runner: Runner):
+    def __init__(self, runner: Runner, chk: Check | None = None):
         self.runner = runner
+        self.chk = chk
         self.cache: dict = {}
 
     @staticmethod
@@ -712,7 +747,9 @@ class Baseline:
                 todo.append(op)
         if not todo:
             return
-        out = self.runner.run({"mode": "baseline", "probe": True, "threads": [todo], "switch": 0.005, "timeout": 120})
+        out = self.runner.run({"mode": "baseline", "probe": True, "threads": [todo], "switch": 0.005, "timeout": 45})
+        if out.get("hang") and self.chk is not None:
+            sequential_failure(self.chk, out, "baseline")
         if out.get("crash") or out.get("hang") or len(out["results"][0]) != len(todo):
             raise HarnessError(f"C19 baseline process failed: {out.get('crash') or out.get('hang_info')}")
         for op, r in zip(todo, out["results"][0]):
@@ -724,20 +761,24 @@ class Baseline:
 
     def alone(self, op, probe: bool) -> str:
         """the call run alone in its own fresh process"""
-        out = self.runner.run({"mode": "alone", "probe": probe, "threads": [[op]], "switch": 0.005, "timeout": 120})
+        out = self.runner.run({"mode": "alone", "probe": probe, "threads": [[op]], "switch": 0.005, "timeout": 60})
+        if out.get("hang") and self.chk is not None:
+            sequential_failure(self.chk, out, "alone")
         if out.get("crash") or out.get("hang") or not out["results"][0]:
             raise HarnessError(f"C19 alone-process failed: {out.get('crash') or out.get('hang_info')}")
         return out["results"][0][0]
 
 
-def gen_unsafe_names(runner: Runner) -> set:
+def gen_unsafe_names(runner: Runner, chk: Check | None = None) -> set:
     """dialects whose first generator construction imports further sqlglot modules outside any lazy access
     (function-level imports, e.g. athena -> hive, trino): their `gen` is kept out of the model-trace runs"""
     names, _ = dialect_tables()
     prog = []
     for nm in names:
         prog += [["attr", "dialects", nm], ["gen", nm]]
-    out = runner.run({"mode": "baseline", "probe": False, "threads": [prog], "switch": 0.005, "timeout": 120})
+    out = runner.run({"mode": "baseline", "probe": False, "threads": [prog], "switch": 0.005, "timeout": 60})
+    if out.get("hang") and chk is not None:
+        sequential_failure(chk, out, "gen-probe")
     if out.get("crash") or out.get("hang"):
         raise HarnessError(f"C19 gen-probe process failed: {out.get('crash') or out.get('hang_info')}")
     bad = set()
@@ -771,6 +812,9 @@ def model_input(out: dict, pkg: str, kind: str):
     last_imp = [None] * nthreads
     outside = []
     for (t, k, a) in out["events"]:
+        if k == "op":
+            depth[t] = 0  # a new top-level call of the thread's program
+            continue
         if k in ("call", "callfail", "imp"):
             if a[0] != pkg:
                 continue
@@ -844,6 +888,80 @@ def model_input(out: dict, pkg: str, kind: str):
 
 
 # ------------------------------------------------------------------------------------------ oracles on one run
+def lock_holders(out: dict) -> dict:
+    """thread -> set of package locks it holds according to the recorded acq/rel events"""
+    depth: dict = {}
+    for (t, k, a) in out.get("events", []):
+        if k == "acq":
+            depth[(t, a)] = depth.get((t, a), 0) + 1
+        elif k == "rel":
+            depth[(t, a)] = depth.get((t, a), 0) - 1
+    res: dict = {}
+    for (t, a), d in depth.items():
+        if d > 0:
+            res.setdefault(str(t), set()).add(a)
+    return res
+
+
+def hang_sigs(out: dict) -> list:
+    holders = lock_holders(out)
+    sigs = set()
+    for i, v in out.get("hang_info", {}).items():
+        st = v.get("stack", [])
+        sig = hang_signature(st)
+        # blocked in `with _import_lock` while holding that very lock: a self dead-lock (non re-entrant lock)
+        if st and st[-1].startswith("c19.py:") and st[-1].endswith(":__enter__") and holders.get(str(i)):
+            sig = "self:" + sig
+        sigs.add(sig)
+    return sorted(sigs) or ["?"]
+
+
+def hang_signature(stack: list) -> str:
+    """the innermost two frames that belong to sqlglot (or to a harness probe module) of a blocked thread"""
+    keep = []
+    for fr in stack:
+        fn, _, name = fr.split(":")
+        if fn in ("c19.py", "threading.py") or fn.startswith("<frozen"):
+            continue
+        if fn == "__init__.py" and name == "import_module":
+            continue
+        keep.append(f"{fn}:{name}")
+    return ">".join(keep[-2:]) or "?"
+
+
+def load_intervals(out: dict) -> dict:
+    """module -> (loader thread, index of its `exec` event, index of its `reg` event or None)"""
+    res: dict = {}
+    for i, (t, k, a) in enumerate(out["events"]):
+        if k == "exec" and isinstance(a, str) and a.startswith("sqlglot.dialects.") and a not in res:
+            res[a] = [t, i, None]
+        elif k in ("reg", "execfail") and isinstance(a, str) and a in res and res[a][2] is None and res[a][0] == t:
+            res[a][2] = i
+    return res
+
+
+def early_registry_read(out: dict, loading: dict, t: int, j: int, op: list):
+    """Was a dialect this call names still being initialised by ANOTHER thread while the call ran?  (`_Dialect.get`
+    answers from `_classes` as soon as the metaclass has registered the class — before `__new__` has configured it and
+    before the rest of the module body has run.)"""
+    i0 = i1 = None
+    for i, (tt, k, a) in enumerate(out["events"]):
+        if tt == t and a == j:
+            if k == "op":
+                i0 = i
+            elif k == "opend":
+                i1 = i
+    if i0 is None:
+        return None
+    i1 = i1 if i1 is not None else len(out["events"])
+    names = [x for x in op[1:] if isinstance(x, str) and " " not in x]
+    for nm in names:
+        iv = loading.get("sqlglot.dialects." + nm.lower())
+        if iv and iv[0] != t and iv[1] < i1 and (iv[2] is None or iv[2] > i0):
+            return nm.lower()
+    return None
+
+
 def lock_discipline(out: dict):
     """python-side sanity check of the recorded lock events (also done by the model replay in T runs)"""
     owner: dict = {}
@@ -870,10 +988,11 @@ def check_run(chk: Check, out: dict, base: Baseline, runner: Runner) -> list:
         raise HarnessError("C19 child crashed: " + str(out["crash"])[:500])
     if out["hang"]:
         info = out.get("hang_info", {})
-        ops = sorted({json.dumps(spec["threads"][int(i)][v["op"]][:1] + spec["threads"][int(i)][v["op"]][2:3])
-                      for i, v in info.items() if v.get("op") is not None})
-        bad.append(("hang", f"threads {out['hang']} never finished (dead-lock): {json.dumps(info)[:600]}", {"ops": ops}))
+        sigs = hang_sigs(out)
+        bad.append(("hang:" + "|".join(sigs), f"threads {out['hang']} never finished (dead-lock); blocked at: {sigs}",
+                    {"blocked": {i: v.get("stack", [])[-8:] for i, v in list(info.items())[:4]}}))
         return bad
+    loading = load_intervals(out)
     for t, (prog, res) in enumerate(zip(spec["threads"], out["results"])):
         for j, (op, r) in enumerate(zip(prog, res)):
             exp = base.get(op)
@@ -889,6 +1008,9 @@ def check_run(chk: Check, out: dict, base: Baseline, runner: Runner) -> list:
             kind = "raise" if r.startswith("raise:") else "result"
             exc = r.split(":")[1] if kind == "raise" else ""
             where = r.rsplit("|", 1)[-1].split(">")[-1].split(":")[0] if kind == "raise" else ""
+            early = early_registry_read(out, loading, t, j, op)
+            if early:
+                kind = "early-registry-read:" + kind
             bad.append((f"{kind}:{op[0]}:{exc}:{where}",
                         f"thread {t} call #{j} {op} gave {r[:300]!r}; run alone it gives {alone[:300]!r}",
                         {"thread": t, "index": j, "op": op, "got": r[:2000], "alone": alone[:2000]}))
@@ -997,6 +1119,22 @@ def _contention(out: dict) -> bool:
     return False
 
 
+def order_dependence(chk: Check, runner: Runner, base: Baseline, specs: list, workers: int) -> None:
+    """The baseline process ran thousands of calls one after the other; a few of them are re-run ALONE in fresh
+    processes: "what it returns when run alone" must not depend on what the process did before (stale cache keys)."""
+    ops = [op for op in {json.dumps(o): o for o in all_ops(specs)}.values() if op[0] in ("transpile", "gen", "optimize", "parse")]
+    k = min(len(ops), chk.pick(5, 40))
+    sample = chk.rng.sample(ops, k) if ops else []
+    with concurrent.futures.ThreadPoolExecutor(max_workers=workers) as ex:
+        alone = list(ex.map(lambda o: base.alone(o, True), sample))
+    for op, a in zip(sample, alone):
+        chk.count("alone-vs-sequential")
+        if a != base.get(op):
+            chk.report_violation(f"order-dependent:{op[0]}", f"{op} gives {base.get(op)[:300]!r} after other calls in the same process "
+                                 f"but {a[:300]!r} when run alone", {"spec": {"mode": "alone-vs-sequential", "op": op}, "sequential": base.get(op)[:2000], "alone": a[:2000]},
+                                 context={"mode": "sequential"})
+
+
 def run(chk: Check) -> None:
     chk.trusted.append("C19: hand-written interleaving model Model/Threads.lean of the two lazy __getattr__s, the package lock, "
                        "import_module as test + load + body + registration, and the _DISPATCH_CACHE get/build/store; "
@@ -1017,8 +1155,8 @@ def run(chk: Check) -> None:
 
     runner = Runner(chk)
     try:
-        base = Baseline(runner)
-        gen_unsafe = gen_unsafe_names(runner)
+        base = Baseline(runner, chk)
+        gen_unsafe = gen_unsafe_names(runner, chk)
         chk.cov["gen_outside_model"] = sorted(gen_unsafe)
         workers = min(8, max(2, (os.cpu_count() or 4) // 2))
         boost = 2 if chk.broken else 1
@@ -1028,8 +1166,18 @@ def run(chk: Check) -> None:
         for mode, cnt in plan:
             for _ in range(cnt):
                 specs.append(gen_spec(chk, mode, gen_unsafe))
+        corpus_dir = os.path.join(os.path.dirname(os.path.dirname(os.path.dirname(os.path.abspath(__file__)))), "corpus", "C19")
+        corpus = []
+        if os.path.isdir(corpus_dir):
+            for fn in sorted(os.listdir(corpus_dir)):
+                if fn.endswith(".json"):
+                    c = json.load(open(os.path.join(corpus_dir, fn)))
+                    c.pop("note", None)
+                    corpus.append(c)
+        specs = corpus + specs
         base.ensure(list(all_ops(specs)), True)
         t0 = time.time()
+        order_dependence(chk, runner, base, specs, workers)
         chunk = workers * 3
         done = 0
         for i in range(0, len(specs), chunk):
@@ -1055,6 +1203,8 @@ def run(chk: Check) -> None:
             chk.broken.append({"kind": "correspondence", "what": "most recorded traces fall outside the model", "example": stats["outside"][:3]})
         if chk.corr_cases == 0 and not chk.violations:
             chk.broken.append({"kind": "correspondence", "what": "no trace could be validated against the model", "example": stats["outside"][:3]})
+    except _Abort:
+        chk.search_info = {"ran": True, "aborted": "a sequential process already violates the property (see the violation)"}
     finally:
         runner.cleanup()
 
@@ -1065,11 +1215,25 @@ def replay(path: str) -> int:
     if not r or "spec" not in r:
         print(json.dumps(rec, indent=1)[:4000])
         return 1
-    chk = Check("C19", "quick", 0)
+    class _Stub:  # (a real Check would wipe the replay files of this seed)
+        def count(self, *a, **k):
+            pass
+
+    chk = _Stub()
     runner = Runner(chk)
     try:
         base = Baseline(runner)
         spec = r["spec"]
+        if spec.get("mode") == "alone-vs-sequential":
+            print("replay: compare the call alone in a fresh process with the same call after the other calls:", json.dumps(r)[:1500])
+            return 1
+        if spec.get("mode") == "alone":
+            out = runner.run(spec)
+            if out.get("hang"):
+                print("replay: VIOLATES: the single thread hangs:", json.dumps(out.get("hang_info"))[:800])
+                return 1
+            print("replay: holds (the call returned", out["results"][0][:1], ")")
+            return 0
         base.ensure(list(all_ops([spec])), True)
         tries = 12
         for i in range(tries):
